@@ -7,5 +7,11 @@ import Ypv.Props.C05
 #print axioms Ypv.C05.set_merge_eq_spec
 #print axioms Ypv.C05.rhs_scalar_overrides
 #print axioms Ypv.C05.impossible_is_merge_error
-#print axioms Ypv.C05.merge_order_ok_partial
+#print axioms Ypv.C05.lhs_order_kept
+#print axioms Ypv.C05.merge_order_ok
+#print axioms Ypv.C05.hash_deep_keys
+#print axioms Ypv.C05.lhs_only_content_preserved
+#print axioms Ypv.C05.merge_content_eq_spec
+#print axioms Ypv.C05.mergeVal_map_eq_mergeDicts
+#print axioms Ypv.C05.root_hash_merge
 #print axioms Ypv.C05.lhs_keys_kept
